@@ -85,6 +85,9 @@ def pick_member(inners: list, v):
                 return pi["const"]["raw"] == v
             return k in ("StringProperty", "AnyProperty")
         if isinstance(v, list):
+            if k == "ListProperty" and isinstance(pi.get("inner"), dict):
+                inner = pi["inner"]
+                return all((pick_member(inner.get("inners") or [], i) is not None) if inner["kind"] == "UnionProperty" else (pick_member([inner], i) is not None) for i in v)
             return k in ("ListProperty", "AnyProperty")
         if isinstance(v, dict):
             return (k == "ModelProperty" and _model_accepts(pi, v)) or k == "AnyProperty"
@@ -288,7 +291,12 @@ def body_plan(doc: dict, man: dict, man_ep: dict, op: dict, tok: docs.Tok, rng: 
         return {"$t": "init", "cls": pi["cls"], "kwargs": kwargs}, x
     tok.take_flags()
     try:
-        v = docs.instance(schema, comps, tok, rng.choice(["rand", "max", "min"]))
+        mode_ = rng.choice(["rand", "max", "min"])
+        rs_ = docs.resolve(schema, comps) if isinstance(schema, dict) else {}
+        if which is not None and isinstance(rs_, dict) and (rs_.get("oneOf") or rs_.get("anyOf")):
+            v = docs.instance(schema, comps, tok, "max" if mode_ == "min" else mode_, 0, {"branch": which})  # union-typed body: the calls walk through the members
+        else:
+            v = docs.instance(schema, comps, tok, mode_)
     except (docs.Bottomless, RecursionError):
         return None
     if v is None:
@@ -304,7 +312,7 @@ def body_plan(doc: dict, man: dict, man_ep: dict, op: dict, tok: docs.Tok, rng: 
     return to_desc(pi, v), x
 
 
-def response_plan(doc: dict, man_ep: dict, op: dict, tok: docs.Tok, rng: random.Random, want: str, overrides: dict | None = None):
+def response_plan(doc: dict, man_ep: dict, op: dict, tok: docs.Tok, rng: random.Random, want: str, overrides: dict | None = None, branch: int | None = None):
     """A canned server response.  want: 'documented' | 'undocumented'."""
     comps = comps_of(doc)
     documented = {str(r["status"]): r for r in man_ep["responses"]}
@@ -347,7 +355,14 @@ def response_plan(doc: dict, man_ep: dict, op: dict, tok: docs.Tok, rng: random.
         return {"status": int(st), "headers": marker + [["content-type", mt]], "content": x["bytes"]}, x
     tok.take_flags()
     try:
-        v = docs.instance(schema, comps, tok, rng.choice(["rand", "max", "min"]))
+        mode_ = rng.choice(["rand", "max", "min"])
+        rs_ = docs.resolve(schema, comps) if isinstance(schema, dict) else {}
+        if branch is not None and isinstance(rs_, dict) and (rs_.get("oneOf") or rs_.get("anyOf")):
+            # a union-typed response: the calls of one operation walk through the members in turn
+            v = docs.instance(schema, comps, tok, "max" if mode_ == "min" else mode_, 0, {"branch": branch})
+            x["union_branch"] = branch
+        else:
+            v = docs.instance(schema, comps, tok, mode_)
     except (docs.Bottomless, RecursionError):
         return None, None
     if v is None and not docs.nullable(schema, comps):
@@ -442,8 +457,8 @@ def plan_ops(doc: dict, man: dict, args: dict) -> list:
                 if bp is None:
                     continue
                 kwargs["body"], x["body"] = bp
-            want = "undocumented" if (ci == 2 or not ep["responses"]) else "documented"
-            resp, x["response"] = response_plan(doc, ep, op, tok, rng, want, overrides=args.get("overrides"))
+            want = "undocumented" if (ci == int(args.get("undocumented_call", 2)) or not ep["responses"]) else "documented"
+            resp, x["response"] = response_plan(doc, ep, op, tok, rng, want, overrides=args.get("overrides"), branch=ci)
             if resp is None:
                 continue
             raise_flag = rng.random() < (0.5 if want == "undocumented" else 0.3)
